@@ -206,7 +206,7 @@ Qed.
 
 (* ---- the three schedules that refuted the statement on the code as found (ProofsV0.v), on the
    repaired code ---- *)
-Definition K1 : key := (1, 1, 0, 0)%N.
+Definition K1 : key := (1, 1, [], 0)%N.
 
 (* (a) the dialler 0 cancels while the protocol init is pending: the coalesced waiter 1 (live ctx,
    healthy upstream) dials again and subscribes *)
